@@ -25,13 +25,25 @@ R02.7 GHASH schedule of the one-shot bodies (lib/ghash.py, the monomial interpre
       depth (and AAD lengths 1..130 with short data), the 16 bytes written through auth_tag must contain block j of
       the m AAD blocks times H^(m-j+n+1), block i of the n data blocks (the last one padded) times H^(n-i+1), and
       the length block times H.  The key table is what the same family's precomp body stores.
-R02.8 AAD schedule of init: ctx->aad_hash after init contains AAD block j times H^(m-j) for every AAD length 1..200
-      (thorough: 1..1100).
+R02.8 AAD schedule of init: ctx->aad_hash after init contains AAD block j times H^(m-j) for every AAD length 1..799
+      (thorough: 1..1599).
 R02.9 AES round typestate in the 64 bodies that produce output (one-shot and update; lib/aesrounds.py on the path each
       length selects, update also with 8 pending bytes): every counter block goes through the whitening and rounds
       1..Nr of the key schedule at key_data in order, the last round in its *last form (the VAES bodies fold the data
       into the last round key - followed), and only finished blocks are stored through out (ctx->partial_block_enc_key is taken to hold the finished
       key-stream block an earlier call left there).
+R02.10 counter byte mirror: the AVX2 and VAES families keep the low byte of the counter in a general register (movd
+      from the counter block, and 255) to decide when the cheap big-endian add may be used.  For every compare of
+      that register with an immediate followed by a conditional branch, the largest value the register can have on
+      the edge that takes the cheap add, plus the immediate of the first `add` to the register reached from that
+      edge, must not exceed 255 - otherwise the cheap add is used when the counter byte wraps and the carry is lost.
+      Guards that are not followed by an advance (the last group of blocks of a message) are judged on the length
+      skeleton instead: where the run forks on such a compare, largest cheap-path value + blocks still to be produced
+      (from the output bytes written so far) must not exceed 255.
+R02.11 sliding-window byte masks: the sse / avx families fetch the mask for a trailing partial block as an unaligned
+      16-byte window over two adjacent constants (sixteen ff bytes followed by sixteen 00 bytes).  On the length
+      skeleton every constant fetched that way and consumed by a (v)pand must consist of 00 and ff bytes only - the
+      layout of the constant tables is part of the algorithm.
 R02.3 instance floor: the four families are all offered by every GCM dispatcher of the one-shot / update /
       finalize interfaces; 96 bodies carry the argument list of aes/aes_gcm.c.
 """
@@ -96,9 +108,9 @@ def gh_rules(lib, key, name, sig, extra, out, add):
         data = (list(range(1, 1150)) if thorough else list(range(1, 81)) + [16 * k + r for k in BIG for r in (0, 1, 15)])
         for A_ in (12, 20, 48):
             cases += [(A_, L) for L in data]
-        cases += [(A_, L) for A_ in range(1, 131 if not thorough else 600) for L in (5, 16)]
+        cases += [(A_, L) for A_ in (list(range(1, 131)) + [16 * k + r for k in (16, 17, 23, 24, 31, 32, 33, 47, 48, 49) for r in (-1, 0, 1)] if not thorough else range(1, 900)) for L in (5, 16)]
     else:
-        cases = [(A_, None) for A_ in range(1, 1100 if thorough else 200)]
+        cases = [(A_, None) for A_ in range(1, 1600 if thorough else 800)]
     judged = notj = 0
     why = None
     bad = None
@@ -142,7 +154,103 @@ def gh_rules(lib, key, name, sig, extra, out, add):
         out["gh_ok_" + kind] = out.get("gh_ok_" + kind, 0) + 1
 
 
-def aes_rule(lib, key, name, sig, extra, out, add):
+def mirror_rule(lib, key, name, out, add):
+    f = lib.func(key)
+    P_ = x86.PARENT
+    mirrors = set()
+    for b, bl in f.blocks.items():
+        for k, i in enumerate(bl):
+            if i.mem < 0 and i.op in ("AND32ri", "AND32ri8", "AND64ri8", "AND64ri32") and (i.imm(2) or 0) == 255 and k > 0:
+                j = bl[k - 1]
+                if j.mem < 0 and j.op in ("VMOVPDI2DIrr", "MOVPDI2DIrr", "VMOVPDI2DIZrr", "VMOVPQIto64rr", "MOVPQIto64rr", "VMOVPQIto64Zrr") and P_.get(j.reg(0)) == P_.get(i.reg(0)):
+                    mirrors.add(P_.get(i.reg(0)))
+    paired = set()
+    if not mirrors:
+        return mirrors, paired
+    byaddr = {i.addr: (b, k) for b, bl in f.blocks.items() for k, i in enumerate(bl)}
+    for b, bl in f.blocks.items():
+        for k, i in enumerate(bl):
+            m = re.match(r"^CMP(8|16|32|64)(ri8|ri|ri32)$", i.op)
+            if not m or i.mem >= 0 or P_.get(i.reg(0)) not in mirrors:
+                continue
+            width = int(m.group(1))
+            T = (i.imm(1) or 0) & ((1 << width) - 1)
+            jcc = None
+            for j in bl[k + 1:]:
+                if j.is_cond():
+                    jcc = j
+                    break
+                if "EFLAGS" in j.idefs or "EFLAGS" in j.explicit_defs():
+                    break
+            if jcc is None or T > 255:
+                continue
+            cc = jcc.imm(1)
+            tgt, fall = jcc.branch_target(), jcc.next
+            if cc in (3, 13) and (cc == 3 or width >= 32):      # jae / jge: taken when M >= T
+                fast, mx = fall, T - 1
+            elif cc in (7, 15) and (cc == 7 or width >= 32):    # ja / jg
+                fast, mx = fall, T
+            elif cc in (2, 12) and (cc == 2 or width >= 32):    # jb / jl: taken when M < T
+                fast, mx = tgt, T - 1
+            elif cc in (6, 14) and (cc == 6 or width >= 32):    # jbe / jle
+                fast, mx = tgt, T
+            else:
+                continue
+            M = P_.get(i.reg(0))
+            # first definition of the mirror reachable from the fast edge
+            seen = set()
+            work = [fast]
+            adds = []
+            while work:
+                a = work.pop()
+                if a in seen or a not in byaddr:
+                    continue
+                seen.add(a)
+                bb, kk = byaddr[a]
+                stop = False
+                for j in f.blocks[bb][kk:]:
+                    ds = [P_.get(d) for d in list(j.explicit_defs())]
+                    if M in ds:
+                        mm = re.match(r"^ADD(8|16|32|64)(ri8|ri|ri32)$", j.op)
+                        if mm and j.mem < 0:
+                            adds.append((j, (j.imm(2) or 0) & 0xFF))
+                        stop = True
+                        break
+                    if j.is_ret():
+                        stop = True
+                        break
+                if not stop:
+                    work += f.succ.get(bb, [])
+            if adds:
+                paired.add(i.addr)
+            for (j, N) in adds:
+                out["mir_n"] = out.get("mir_n", 0) + 1
+                if mx + N > 255:
+                    add("R02.10", name, "counter-mirror", "`%s` / `%s`: the cheap big-endian counter add is taken while the counter's low byte can be as large as %d, and the byte is then advanced by %d (`%s`): for a low byte of %d the add wraps the byte and the carry into the upper counter bytes is lost" % (
+                        i.text.strip(), jcc.text.strip(), mx, N, j.text.strip(), mx), i.addr, key[1])
+                else:
+                    out["mir_ok"] = out.get("mir_ok", 0) + 1
+    return mirrors, paired
+
+
+class GuardMachine(aesrounds.AesMachine):
+    """AesMachine that also notes every undecided branch on a compare of a register with a constant, together with
+    how far the output had been written at that moment."""
+
+    def on_fork(self, branch, last_cmp):
+        if last_cmp is None:
+            return
+        ci, T, w = last_cmp
+        hi = 0
+        for (i, tag, off, size, rw, masked) in self.res.accesses:
+            if tag == "out" and "w" in rw and off + size > hi:
+                hi = off + size
+        if not hasattr(self, "guards"):
+            self.guards = []
+        self.guards.append((ci, T, w, branch, hi))
+
+
+def aes_rule(lib, key, name, sig, extra, out, add, mirrors=(), paired=()):
     fields = extra["ctx_fields"]
     m = re.match(r"^_aes_gcm_(enc|dec)_(128|256)(_update)?_(sse|avx_gen2|avx_gen4|vaes_avx512)(_nt)?$", name)
     if not m or not fields:
@@ -156,7 +264,34 @@ def aes_rule(lib, key, name, sig, extra, out, add):
     jr = jl = ul = 0
     for PB in pbs:
         for L in (data if PB == 0 else data[:48]):
-            mch = aesrounds.run_body(lib, f, sig, nr_, L, pb=PB, pboff=fields["partial_block_length"][0], carried_done=("context_data", fields["partial_block_enc_key"][0]))
+            mch = aesrounds.run_body(lib, f, sig, nr_, L, pb=PB, pboff=fields["partial_block_length"][0], carried_done=("context_data", fields["partial_block_enc_key"][0]), cls=GuardMachine)
+            for (mi, cbytes) in getattr(mch.result, "mask_consts", []) or []:
+                out["mask_n"] = out.get("mask_n", 0) + 1
+                if any(x not in (0, 255) for x in cbytes) and not out.get("mask_bad_" + name):
+                    out["mask_bad_" + name] = 1
+                    add("R02.11", name, "byte-mask:len=%d" % L, "with len = %d: `%s` masks with the constant %s, fetched through a sliding window into the constant tables; a byte mask has only 00 and ff bytes - the window runs into a constant that is not the all-zero block it relies on" % (L, mi.text.strip(), cbytes.hex()), mi.addr, key[1])
+            for (ci, T, w, br, hi) in getattr(mch, "guards", []):
+                if x86.PARENT.get(ci.reg(0)) not in mirrors or ci.addr in paired or T > 255:
+                    continue
+                cc = br.imm(1)
+                if cc in (3, 13):
+                    mx = T - 1
+                elif cc in (7, 15):
+                    mx = T
+                else:
+                    continue
+                if PB:
+                    continue
+                nblk = (L - hi + 15) // 16
+                out["mir_n"] = out.get("mir_n", 0) + 1
+                out["mir_unpaired"] = out.get("mir_unpaired", 0) + 1
+                if mx + nblk > 255:
+                    if not out.get("mir_bad_" + name):
+                        out["mir_bad_" + name] = 1
+                        add("R02.10", name, "counter-mirror:len=%d" % L, "with len = %d: `%s` / `%s` lets the cheap big-endian counter add run while the counter's low byte can be as large as %d, and %d counter block(s) are still to be produced from it (%d output bytes written so far): for a low byte of %d the last of them wraps the byte and the carry is lost" % (
+                            L, ci.text.strip(), br.text.strip(), mx, nblk, hi, mx), ci.addr, key[1])
+                else:
+                    out["mir_ok"] = out.get("mir_ok", 0) + 1
             rr = mch.result
             if rr.stopped or not rr.returned:
                 out["broken"].append("%s: length skeleton not followed for len = %d (%s)" % (name, L, rr.stopped))
@@ -196,8 +331,9 @@ def worker(lib, objname, extra):
         for b in p1.broken:
             out["broken"].append("%s::%s %s" % (objname, name, b))
         out["bodies"] += 1
+        mirrors, paired = mirror_rule(lib, key, name, out, add) or (set(), set())
         gh_rules(lib, key, name, sig, extra, out, add)
-        aes_rule(lib, key, name, sig, extra, out, add)
+        aes_rule(lib, key, name, sig, extra, out, add, mirrors, paired)
         names = {(s[0] if s else None): argloc(k) for k, s in enumerate(sig)}
         nt = name.endswith("_nt")
         free = {}
@@ -382,7 +518,7 @@ def run(chk):
         r = res[objname]
         for k in ("bodies", "sinks", "buf_acc", "tag_bodies", "tag_cases", "tag_ok", "align_ok"):
             tot[k] += r[k]
-        for k in ("ip_bodies", "ip_pairs", "ip_ok", "lenblk_bodies", "lenblk_moves", "lenblk_ok", "gh_judged", "gh_notjudged", "gh_oneshot", "gh_init", "gh_ok_oneshot", "gh_ok_init", "rt_bodies", "rt_ok", "rt_lanes", "rt_unl", "rt_runs", "rt_rounds", "rt_unk"):
+        for k in ("ip_bodies", "ip_pairs", "ip_ok", "lenblk_bodies", "lenblk_moves", "lenblk_ok", "gh_judged", "gh_notjudged", "gh_oneshot", "gh_init", "gh_ok_oneshot", "gh_ok_init", "rt_bodies", "rt_ok", "rt_lanes", "rt_unl", "rt_runs", "rt_rounds", "rt_unk", "mir_n", "mir_ok", "mir_unpaired", "mask_n"):
             tot[k] += r.get(k, 0)
         for w_ in r.get("gh_why", []):
             if len(chk.notes) < 6:
@@ -398,6 +534,12 @@ def run(chk):
     chk.obligations["R02.2"] = [tot["tag_cases"], tot["tag_ok"]]
     chk.obligations["R02.5"] = [tot["ip_bodies"], tot["ip_ok"]]
     chk.obligations["R02.6"] = [tot["lenblk_bodies"], tot["lenblk_ok"]]
+    chk.obligations["R02.10"] = [tot["mir_n"], tot["mir_ok"]]
+    chk.floor("counter byte-mirror guards judged (paired with their advance, or on the length skeleton)", tot["mir_n"], 500)
+    chk.floor("last-group counter guards judged on the length skeleton", tot["mir_unpaired"], 300)
+    n_maskbad = len([f_ for f_ in chk.findings if f_.rule == "R02.11"])
+    chk.obligations["R02.11"] = [tot["mask_n"], tot["mask_n"] - n_maskbad]
+    chk.floor("byte masks fetched through a sliding window and judged", tot["mask_n"], 1000)
     chk.obligations["R02.9"] = [tot["rt_bodies"], tot["rt_ok"]]
     chk.floor("bodies judged for the AES round typestate", tot["rt_bodies"], 64)
     chk.floor("GCM output blocks judged for the round typestate", tot["rt_lanes"], 100000)
